@@ -281,7 +281,7 @@ func ordName(key bool) string {
 func main() {
 	o := vhlib.ParseOpts()
 	rng := vhlib.NewRng(o.Seed)
-	w := vhlib.NewWriter(o.Out, "From VF Require Import C10.Model C10.SortModel C10.Spec C10.Check.\nLocal Open Scope Z_scope.", "case", "mismatches", 100)
+	w := vhlib.NewWriter(o.Out, "From VF Require Import C10.Model C10.SortModel C10.Spec C10.Check.\nLocal Open Scope Z_scope.", "case", "mismatches", 150)
 	thorough := o.Thorough()
 
 	// ---------- 0. zsortordered.go must be zsortfunc.go with less(x, y) replaced by x < y ----------
@@ -513,14 +513,14 @@ func main() {
 
 	// ---------- emit, spreading the heavy cases over the shards ----------
 	sort.SliceStable(cases, func(i, j int) bool { return cases[i].weight > cases[j].weight })
-	nsh := (len(cases) + 99) / 100
+	nsh := (len(cases) + 149) / 150
 	shards := make([][]pending, nsh)
 	load := make([]int, nsh)
-	capOf := func(s int) int { // the writer cuts a shard every 100 cases: fill exactly so that its boundaries are ours
+	capOf := func(s int) int { // the writer cuts a shard every 150 cases: fill exactly so that its boundaries are ours
 		if s < nsh-1 {
-			return 100
+			return 150
 		}
-		return len(cases) - 100*(nsh-1)
+		return len(cases) - 150*(nsh-1)
 	}
 	for _, c := range cases { // greedy: heaviest first into the least loaded shard that still has room
 		best := -1
@@ -538,7 +538,7 @@ func main() {
 		}
 	}
 	w.Notes["model_branches"] = evalPaths(o.Out)
-	w.Close(o, "one case = one call of a comparator / sort / search of the anchored files on a generated input (14 slice generators incl. sorted, reversed, few-distinct, organ-pipe, nearly-sorted, duplicate blocks, two runs, plus McIlroy's anti-quicksort adversary run against the real SortFunc; lengths 0..300 quick / 0..2000 thorough through the Coq model with the less-call sequence compared by count and rolling hash, up to 2*10^4 / 10^5 through the verified output checker only; comparators on type extremes and random pairs); distinct = distinct case terms; non-trivial = length >= 2 for slices, any comparator pair")
+	w.Close(o, "one case = one call of a comparator / sort / search of the anchored files on a generated input (14 slice generators incl. sorted, reversed, few-distinct, organ-pipe, nearly-sorted, duplicate blocks, two runs, plus McIlroy's anti-quicksort adversary run against the real SortFunc, ascending/descending inputs of length 50..300 with one or two displaced elements at every small offset and near the end (Sort, SortFunc, Ordered wrappers), every permutation of sizes 0..6 (distinct keys and ties) through GetSortedValues on arraylist / linkedhashset / treeset / hashset / doublylinkedlist, the lists' Sort, bcomparator.Sort and SortComparator, and every sort entry point (SortFunc, SortStableFunc, SortComparator and their ToSlice / ToBSlice variants, Sort) of all eight bslice wrapper flavours on tagged pairs with many ties, the Stable ones judged for stability; lengths 0..300 quick / 0..2000 thorough through the Coq model with the less-call sequence compared by count and rolling hash, up to 2*10^4 / 10^5 through the verified output checker only; comparators on type extremes and random pairs); distinct = distinct case terms; non-trivial = length >= 2 for slices, any comparator pair")
 }
 
 // diffOrdered: transform zsortfunc.go textually into what zsortordered.go must be and compare
